@@ -14,7 +14,7 @@ RULE = ("seeded gen_coords runs with dense, tiny, cubic, non-cubic and density-d
 ASSUMPTIONS = wa.ASSUMPTIONS + ["where twice the step length reaches the smallest box edge the literal minimum-image reading "
                                 "is undefined; there the oracle demands that some periodic image of the displacement has the step length"]
 REAL_VS_STUB = wa.REAL_VS_STUB
-PROBES = wa.PROBES + ["ring_soup", "placed_interacting_across_boundary", "step_longer_than_half_box", "user_grid"]
+PROBES = wa.PROBES + ["bending_constants", "ring_soup", "placed_interacting_across_boundary", "step_longer_than_half_box", "user_grid"]
 PROFILE = {"box_modes": ["dense", "dense", "tiny", "cubic", "noncubic", "density"], "p_gs": 0.5, "p_sf": 0.5, "p_mf": 0.5,
            "faults": ["step", "start", "overlap"], "n_entries": (1, 4), "max_molecules": 12,
            "shapes": ["single", "linear", "linear", "star", "comb", "tree", "ring"]}
@@ -52,6 +52,11 @@ def gen_job(verif_seed, tier, index):
         job["ring_soup"] = True
     if g.random() < 0.25:
         jobgen.add_user_grid(job, g)
+    if g.random() < 0.2:
+        # sequence dependent bending constants: the Monte-Carlo bending acceptance (random.uniform) joins the walk
+        names = sorted(job["spec"]["restypes"])
+        job["bld_bending"] = [[g.choice(names), g.choice(names), g.choice(names), g.choice([1.0, 5.0, 20.0])]
+                              for _ in range(g.randint(1, 3))]
     if g.random() < 0.15:
         jobgen.add_coordinates(job, g, {"coord_modes": ["prefix", "meta_prefix", "res"]})
     return job
@@ -62,6 +67,8 @@ def _tag(job, res):
         res["probes"]["user_grid"] = 1
     if job.get("ring_soup"):
         res["probes"]["ring_soup"] = 1
+    if job.get("bld_bending"):
+        res["probes"]["bending_constants"] = 1
     return bool(res["probes"].get("placed_with_neighbours_in_cutoff"))
 
 
